@@ -86,6 +86,131 @@ func c04(w *core.World, r *core.Report) {
 				}
 			}
 		}
+		// the table form: Validate ranges over a package-level slice of (switch predicate, validator) rows
+		tableRows := map[string]string{} // switch name -> validator method, as filed in the table
+		var tableRun ssa.CallInstruction
+		tableGuarded := false
+		for _, b := range core.Blocks(validate) {
+			for _, in := range b.Instrs {
+				rg, ok := in.(*ssa.Range)
+				_ = rg
+				_ = ok
+			}
+		}
+		for _, c := range core.Calls(validate) {
+			cc := c.Common()
+			if cc.IsInvoke() || cc.StaticCallee() != nil {
+				continue
+			}
+			// a call of a function-typed FIELD of an element of a global slice
+			var fld *ssa.FieldAddr
+			for _, o := range append(core.Origins(cc.Value), cc.Value) {
+				if u, ok := o.(*ssa.UnOp); ok {
+					if fa, ok := u.X.(*ssa.FieldAddr); ok {
+						fld = fa
+					}
+				}
+				if f2, ok := o.(*ssa.Field); ok {
+					_ = f2
+				}
+			}
+			if fld == nil {
+				continue
+			}
+			var g *ssa.Global
+			seen := map[ssa.Value]bool{}
+			var find func(v ssa.Value, d int)
+			find = func(v ssa.Value, d int) {
+				if v == nil || seen[v] || d > 8 {
+					return
+				}
+				seen[v] = true
+				for _, o := range append(core.Origins(v), v) {
+					switch x := o.(type) {
+					case *ssa.UnOp:
+						if gg, ok := x.X.(*ssa.Global); ok {
+							g = gg
+						} else {
+							find(x.X, d+1)
+						}
+					case *ssa.IndexAddr:
+						find(x.X, d+1)
+					case *ssa.Alloc:
+						for _, ref := range *x.Referrers() {
+							if st, ok := ref.(*ssa.Store); ok && st.Addr == ssa.Value(x) {
+								find(st.Val, d+1)
+							}
+						}
+					case *ssa.Extract:
+						if n, ok := x.Tuple.(*ssa.Next); ok {
+							if rg, ok := n.Iter.(*ssa.Range); ok {
+								find(rg.X, d+1)
+							}
+						}
+					}
+				}
+			}
+			find(fld.X, 0)
+			rows := structTable(w, g)
+			if rows == nil {
+				continue
+			}
+			// which field holds the action (this call) and which the predicate (a bool-returning func field)
+			runIdx := fld.Field
+			for _, row := range rows {
+				run := funcOfTableValue(row[runIdx])
+				if run == nil {
+					continue
+				}
+				method := ""
+				if strings.HasPrefix(core.FuncKey(run), "tree.sharedEntryAttributes.validate") {
+					method = strings.TrimPrefix(core.FuncKey(run), "tree.sharedEntryAttributes.")
+				} else {
+					for _, vc := range core.OwnCalls(run) {
+						if k := core.CalleeKey(vc); strings.HasPrefix(k, "tree.sharedEntryAttributes.validate") {
+							method = strings.TrimPrefix(k, "tree.sharedEntryAttributes.")
+						}
+					}
+				}
+				for j, cell := range row {
+					if j == runIdx {
+						continue
+					}
+					pred := funcOfTableValue(cell)
+					if pred == nil || pred.Signature.Results().Len() != 1 {
+						continue
+					}
+					// the predicate returns the switch itself
+					for _, ret := range core.Returns(pred) {
+						for _, rv := range core.ReturnValues(ret) {
+							if fk := core.FieldOf(rv); strings.HasPrefix(fk, "config.Validators.") && method != "" {
+								tableRows[strings.TrimPrefix(fk, "config.Validators.")] = method
+								read[strings.TrimPrefix(fk, "config.Validators.")] = true
+							}
+						}
+					}
+				}
+			}
+			if len(tableRows) > 0 {
+				tableRun = c
+				// the action runs only when the row's own predicate said "not disabled": a dynamic call through another
+				// field of the same element, found false
+				for _, a := range core.GuardAtoms(c) {
+					if a.True {
+						continue
+					}
+					if pc, ok := a.Cond.(*ssa.Call); ok && pc.Common().StaticCallee() == nil && !pc.Common().IsInvoke() {
+						for _, o := range append(core.Origins(pc.Common().Value), pc.Common().Value) {
+							if u, ok := o.(*ssa.UnOp); ok {
+								if fa, ok := u.X.(*ssa.FieldAddr); ok && fa.Field != runIdx && (fa.X == fld.X || core.SameObject(fa.X, fld.X)) {
+									tableGuarded = true
+								}
+							}
+						}
+					}
+				}
+			}
+		}
 		if fieldsT != nil {
 			for i := 0; i < fieldsT.NumFields(); i++ {
 				n := fieldsT.Field(i).Name()
@@ -94,6 +219,11 @@ func c04(w *core.World, r *core.Report) {
 			}
 		}
 		for sw, method := range validatorSwitches {
+			if len(tableRows) > 0 && len(core.CallsTo(validate, "tree.sharedEntryAttributes."+method)) == 0 {
+				r.Check(tableRows[sw] == method && tableGuarded, "VALIDATOR-TABLE", core.Site(validate, "call %s governed by %s", method, sw), w.InstrPos(tableRun), fmt.Sprintf("the validator table must file %s under the switch %s and run a row only when its own predicate says it is not disabled (filed under it: %q)", method, sw, tableRows[sw]))
+				r.Check(core.GuardedByBoolCall(tableRun, true, "tree.sharedEntryAttributes.remainsToExist"), "VALIDATOR-TABLE", core.Site(validate, "call %s only for remaining entries", method), w.InstrPos(tableRun), "entries that are being deleted are not part of the resulting configuration")
+				continue
+			}
 			calls := core.CallsTo(validate, "tree.sharedEntryAttributes."+method)
 			if len(calls) != 1 {
 				r.Viol("VALIDATOR-TABLE", core.Site(validate, "call %s", method), w.Pos(validate.Pos()), fmt.Sprintf("expected exactly one call, found %d", len(calls)))
